@@ -47,7 +47,12 @@ GRV_CMD(threads) {
     // optional staging: "badglyph" gives glyph 99 an empty attribute range - such a font is refused when all glyphs are
     // loaded up front, so there is nothing to share (unless the library quietly falls back to loading on demand)
     const bool badglyph = argc > 8 && !strcmp(argv[8], "badglyph");
+    // "noname" / "name1": no name table, or one of a format the library does not read - labels are absent, and asking for
+    // them from many threads must still not reach the table callbacks of a preloaded face
+    const std::string stagekind = argc > 8 ? argv[8] : "";
     auto stage = [&](TableFace &t) {
+        if (stagekind == "noname") t.drop("name");
+        if (stagekind == "name1") { std::vector<uint8_t> n = t.tables[tagof("name")]; if (n.size() >= 2) { n[0] = 0; n[1] = 1; t.tables[tagof("name")] = n; } }
         if (!badglyph) return;
         std::vector<uint8_t> g = t.tables[tagof("Gloc")];
         const bool lng = be16(&g[4]) & 1; const size_t esz = lng ? 4 : 2, at = 8 + esz * 99;
